@@ -24,9 +24,9 @@ fn cfb_fronts(ctx: &mut Ctx) {
     ctx.subject(&name);
     let b = ctx.cfg.bs;
     let w = ctx.cfg.par;
-    let (iv, _) = wl::iv(&mut ctx.rng, b);
+    let (iv, _) = mode_iv(ctx, b);
     let (len, rc) = wl::nbytes(&mut ctx.rng, b, w, ctx.tier);
-    let (msg, _) = wl::data(&mut ctx.rng, len);
+    let (msg, _) = mode_data(ctx, len);
     let nfull = len / b;
     let (sched, sc) = wl::byte_schedule(&mut ctx.rng, len, b);
     let (pieces, _) = gen_pieces(ctx, nfull, w);
@@ -93,9 +93,9 @@ fn ofb_fronts(ctx: &mut Ctx) {
     ctx.subject(&name);
     let b = ctx.cfg.bs;
     let w = ctx.cfg.par;
-    let (iv, _) = wl::iv(&mut ctx.rng, b);
+    let (iv, _) = mode_iv(ctx, b);
     let (n, _) = wl::nblocks(&mut ctx.rng, w, b, ctx.tier);
-    let (msg, _) = wl::data(&mut ctx.rng, n * b);
+    let (msg, _) = mode_data(ctx, n * b);
     ctx.note("iv", J::s(hex_short(&iv)));
     ctx.note("msg", J::s(hex_short(&msg)));
     let key = ctx.key.clone();
@@ -176,7 +176,7 @@ fn core_vs_stream(ctx: &mut Ctx) {
     let w = ctx.cfg.par;
     let (iv, _) = stream_iv(ctx, fl, b);
     let (n, _) = wl::nblocks(&mut ctx.rng, w, b, ctx.tier);
-    let (msg, _) = wl::data(&mut ctx.rng, n * b);
+    let (msg, _) = mode_data(ctx, n * b);
     let (sizes, s1) = wl::schedule(&mut ctx.rng, n, w);
     let (bsched, s2) = wl::byte_schedule(&mut ctx.rng, n * b, b);
     let ops: Vec<CoreOp> = sizes.iter().map(|_| *ctx.rng.pick(&[CoreOp::ApplyBlockInout, CoreOp::ApplyBlocks, CoreOp::ApplyBlocksInout])).collect();
@@ -234,14 +234,14 @@ fn cts_whole_blocks(ctx: &mut Ctx) {
     ctx.subject(&name);
     let b = ctx.cfg.bs;
     let w = ctx.cfg.par;
-    let (iv, _) = wl::iv(&mut ctx.rng, b);
+    let (iv, _) = mode_iv(ctx, b);
     let n = match ctx.rng.below(5) {
         0 => 1,
         1 => 2,
         2 => 3,
         _ => wl::nblocks(&mut ctx.rng, w, b, ctx.tier).0.max(1),
     };
-    let (data, _) = wl::data(&mut ctx.rng, n * b);
+    let (data, _) = mode_data(ctx, n * b);
     ctx.note("iv", J::s(hex_short(&iv)));
     ctx.note("data", J::s(hex_short(&data)));
     ctx.note("n", J::i(n as i64));
@@ -307,9 +307,9 @@ fn ctors(ctx: &mut Ctx) {
             let d = ctx.rng.pick(&ctx.cfg.blk).clone();
             let name = format!("{}/ctors", subj_name(&d));
             ctx.subject(&name);
-            let (iv, _) = wl::iv(&mut ctx.rng, d.iv_len);
+            let (iv, _) = mode_iv(ctx, d.iv_len);
             let n = if d.fam == Family::Cfb8 { ctx.rng.range(0, 3 * b) } else { wl::nblocks(&mut ctx.rng, w, d.bs, ctx.tier).0 };
-            let (data, _) = wl::data(&mut ctx.rng, n * d.bs);
+            let (data, _) = mode_data(ctx, n * d.bs);
             let (pieces, sc) = gen_pieces(ctx, n, w);
             ctx.note("iv", J::s(hex_short(&iv)));
             ctx.note("data", J::s(hex_short(&data)));
@@ -346,7 +346,7 @@ fn ctors(ctx: &mut Ctx) {
             ctx.subject(&name);
             let (iv, _) = stream_iv(ctx, d.flavor, b);
             let (len, rc) = wl::nbytes(&mut ctx.rng, b, w, ctx.tier);
-            let (data, _) = wl::data(&mut ctx.rng, len);
+            let (data, _) = mode_data(ctx, len);
             ctx.note("iv", J::s(hex_short(&iv)));
             let r = guard(|| {
                 let mut outs = Vec::new();
@@ -380,9 +380,9 @@ fn ctors(ctx: &mut Ctx) {
             let d = ctx.rng.pick(&ctx.cfg.cts).clone();
             let name = format!("{}/ctors", d.var.name());
             ctx.subject(&name);
-            let (iv, _) = wl::iv(&mut ctx.rng, b);
+            let (iv, _) = mode_iv(ctx, b);
             let len = b + ctx.rng.below(3 * b);
-            let (data, _) = wl::data(&mut ctx.rng, len);
+            let (data, _) = mode_data(ctx, len);
             ctx.note("iv", J::s(hex_short(&iv)));
             ctx.note("data", J::s(hex_short(&data)));
             let r = guard(|| {
